@@ -442,6 +442,18 @@ int gen_matrix(const case_t *c, rng_t *r, csc_t *A)
         }
         A->colptr[n] = q2; A->nnz = q2;
     }
+    /* tinycol=k, tinyexp=e: column k is multiplied by 2^e (exactly), e.g. into the subnormal range: every candidate pivot of
+       that column is tiny but NOT zero, so the matrix stays nonsingular ("singular" is reserved for exact zeros) */
+    if (cint(c, "tinycol", -1) >= 0 && cint(c, "tinycol", -1) < n) {
+        int_t kc = cint(c, "tinycol", 0); int e = (int)cint(c, "tinyexp", -1030);
+        for (int_t k = A->colptr[kc]; k < A->colptr[kc + 1]; ++k) {
+#if IS_COMPLEX
+            A->val[k].r = ldexp(A->val[k].r, e); A->val[k].i = ldexp(A->val[k].i, e);
+#else
+            A->val[k] = (elem_t)ldexp((double)A->val[k], e);
+#endif
+        }
+    }
 scaling: ;
     /* --- power-of-two row/column scaling (exact) --- */
     int rs = cint(c, "rscale", 0), cs = cint(c, "cscale", 0);
